@@ -12,6 +12,7 @@
 #include <set>
 #include <cstdio>
 #include <cstring>
+#include <algorithm>
 
 namespace vh {
 
@@ -22,6 +23,7 @@ static std::vector<std::string> g_log;
 static std::map<int, int> g_ordinal;          // fd -> ordinal (per scenario)
 static int g_next_ordinal = 1;
 static fault_plan g_faults;
+static bool g_capture_raw = false;
 
 peer_scope::peer_scope() { tl_peer_depth++; }
 peer_scope::~peer_scope() { tl_peer_depth--; }
@@ -66,6 +68,16 @@ void reset_scenario()
 }
 
 std::size_t open_client_fds() { std::lock_guard<std::mutex> l(g_mu); return g_client_fds.size(); }
+
+void set_capture_raw(bool on) { std::lock_guard<std::mutex> l(g_mu); g_capture_raw = on; }
+
+static std::string hexn(const unsigned char *p, size_t n)
+{
+    static const char *d = "0123456789abcdef";
+    std::string r = "x";
+    for (size_t i = 0; i < n; i++) { r.push_back(d[p[i] >> 4]); r.push_back(d[p[i] & 15]); }
+    return r;
+}
 
 void set_faults(const fault_plan & f) { std::lock_guard<std::mutex> l(g_mu); g_faults = f; }
 
@@ -243,7 +255,13 @@ ssize_t send(int fd, const void *buf, size_t len, int flags)
     if (send_fault(fd, mine, o)) { ilog("dw:" + std::to_string(o) + ":err"); errno = EPIPE; return -1; }
     ssize_t r = f(fd, buf, len, flags);
     if (mine && (r >= 0 || (errno != EAGAIN && errno != EWOULDBLOCK && errno != EINTR)))
-    { int e = errno; ilog("dw:" + std::to_string(o) + ":" + (r >= 0 ? std::to_string(r) : std::string("err"))); errno = e; }
+    {
+        int e = errno;
+        ilog("dw:" + std::to_string(o) + ":" + (r >= 0 ? std::to_string(r) : std::string("err")));
+        if (g_capture_raw && r > 0)
+            ilog("raw:" + std::to_string(o) + ":" + hexn(static_cast<const unsigned char *>(buf), std::min<size_t>(static_cast<size_t>(r), 4096)) + ":" + std::to_string(r));
+        errno = e;
+    }
     return r;
 }
 
@@ -254,7 +272,22 @@ ssize_t sendmsg(int fd, const struct msghdr *msg, int flags)
     if (send_fault(fd, mine, o)) { ilog("dw:" + std::to_string(o) + ":err"); errno = EPIPE; return -1; }
     ssize_t r = f(fd, msg, flags);
     if (mine && (r >= 0 || (errno != EAGAIN && errno != EWOULDBLOCK && errno != EINTR)))
-    { int e = errno; ilog("dw:" + std::to_string(o) + ":" + (r >= 0 ? std::to_string(r) : std::string("err"))); errno = e; }
+    {
+        int e = errno;
+        ilog("dw:" + std::to_string(o) + ":" + (r >= 0 ? std::to_string(r) : std::string("err")));
+        if (g_capture_raw && r > 0)
+        {
+            std::string all; size_t left = static_cast<size_t>(r);
+            for (size_t i = 0; i < static_cast<size_t>(msg->msg_iovlen) && left > 0 && all.size() < 4096; i++)
+            {
+                size_t n = std::min(left, msg->msg_iov[i].iov_len);
+                all.append(static_cast<const char *>(msg->msg_iov[i].iov_base), n);
+                left -= n;
+            }
+            ilog("raw:" + std::to_string(o) + ":" + hexn(reinterpret_cast<const unsigned char *>(all.data()), std::min<size_t>(all.size(), 4096)) + ":" + std::to_string(r));
+        }
+        errno = e;
+    }
     return r;
 }
 
